@@ -9,6 +9,8 @@ CLI_BAG = {
     "slowprog": '<<"api","api","reply","reply","reply","reply","slow","slow","cancel","adv","adv">>',
     "dupinv": '<<"api","api","reply","reply","inv","inv","dupinv","dupinv","intr","release","adv","event","event","event">>',
     "hostile": '<<"api","api","reply","reply","hostile","hostile","hostile","hostile","inv","event","adv","disc","close">>',
+    # CallProgressive: the call fed chunk by chunk through a callback
+    "callp": '<<"callp","callp","api","reply","reply","reply","sched","adv","cancel","inv","release">>',
     "shutdown": '<<"api","api","api","reply","inv","cancel","sched","adv","disc","disc","close","close">>',
 }
 
